@@ -510,18 +510,90 @@ class EigVals:
         pw = self.power * q
         if pw != int(pw):
             raise A.OutsideSubset("fractional power of sqrt(eigenvalues)")
-        return EigVals(self.Dh, int(pw), self.c)
+        r = EigVals(self.Dh, int(pw), self.c)
+        r.ndim = self.ndim
+        return r
 
     def __rtruediv__(self, o):
         if o != 1:
             raise A.OutsideSubset("only 1 / eigenvalues")
-        return EigVals(self.Dh, -self.power, self.c)
+        r = EigVals(self.Dh, -self.power, self.c)
+        r.ndim = self.ndim
+        return r
+
+    def __getitem__(self, key):
+        if key == (slice(None), None):
+            r = EigVals(self.Dh, self.power, self.c)
+            r.ndim = 2
+            return r
+        raise A.OutsideSubset("indexing of an eigenvalue vector")
+
+    def __len__(self):
+        return self.Dh.rows
+
+    def __matmul__(self, o):
+        # column of eigenvalue roots times a row of ones: the matrix d_i (same for every column j)
+        if isinstance(o, OnesRow) and self.ndim == 2 and self.power == 1:
+            return RootOuter(self, transposed=False)
+        raise A.OutsideSubset("matrix product with an eigenvalue vector")
 
     def as_matrix(self):
         n = self.Dh.rows
         at = self.Dh if self.power >= 0 else nc._inv_atom(self.Dh)
         sc = A.qpow(self.c, Fraction(self.power, 2))
         return NArr(NC({tuple([at] * abs(self.power)): sc}, n, n), (n, n))
+
+
+class OnesRow:
+    def __init__(self, n):
+        self.n = n
+
+
+class RootOuter:
+    """sqrt(mu_i) broadcast over the columns (or its transpose); the sum of both is the Sylvester denominator."""
+
+    def __init__(self, ev, transposed, conj=False):
+        self.ev, self.transposed = ev, transposed
+
+    def conj(self):
+        return self  # real
+
+    @property
+    def T(self):
+        return RootOuter(self.ev, not self.transposed)
+
+    def __add__(self, o):
+        if isinstance(o, RootOuter) and o.ev.Dh is self.ev.Dh and o.transposed != self.transposed:
+            return SylvesterDenominator(self.ev)
+        raise A.OutsideSubset("sum of eigenvalue-root outer products")
+
+
+class SylvesterDenominator:
+    """D_ij = sqrt(mu_i) + sqrt(mu_j). B / D (element-wise) is the unique C with C Dh + Dh C = B (Dh = diag(sqrt(mu)) > 0)."""
+
+    def __init__(self, ev):
+        self.ev = ev
+
+    def __rtruediv__(self, B):
+        if not isinstance(B, NArr) or B.ndim != 2:
+            raise A.OutsideSubset("element-wise division by the Sylvester denominator")
+        C = nc.ctx()
+        C.assumed.add("sylvester-division")
+        Dh = self.ev.Dh
+        n = Dh.rows
+        k = len([a for a in C.atoms if isinstance(a, str) and a.startswith("sylv")])
+        Cat = C.atom(f"sylv{k}", n, n)
+        sc = A.qpow(self.ev.c, Fraction(1, 2))
+        # (sqrt(c) Dh is the actual root matrix): C (sc Dh) + (sc Dh) C = B  ->  C Dh = B / sc - Dh C
+        bval = nc.define(B.val, "B") if len(B.val.t) > 1 else B.val
+        rhs = bval.scale(A.ONE / sc) - NC({(Dh, Cat): A.ONE}, n, n)
+        C.rule((Cat, Dh), rhs)
+        if B.val.rows == B.val.cols and nc.is_zero(B.val + B.val.dagger()):
+            # anti-Hermitian right-hand side: the solution is anti-Hermitian as well (uniqueness)
+            C.rule((Cat.dagger(),), NC({(Cat,): -A.ONE}, n, n))
+        elif B.val.rows == B.val.cols and nc.is_zero(B.val - B.val.dagger()):
+            C.rule((Cat.dagger(),), NC({(Cat,): A.ONE}, n, n))
+        return NArr(NC.of(Cat), (n, n))
 
 
 class Backend:
@@ -538,11 +610,14 @@ class Backend:
             return NArr(nc.inv(x.val), x.shape[::-1])
 
         @staticmethod
-        def eig(x):
+        def eigh(x):
             Dh, V, c = nc.eigh(x.val)
             return EigVals(Dh, 2, c), NArr(NC.of(V), x.shape)
 
-        eigh = eig
+        @staticmethod
+        def eig(x):
+            Dh, V, c = nc.eigh(x.val, hermitian_solver=False)
+            return EigVals(Dh, 2, c), NArr(NC.of(V), x.shape)
 
         @staticmethod
         def multi_dot(xs):
@@ -558,6 +633,17 @@ class Backend:
         if isinstance(x, EigVals):
             return x.pow(Fraction(1, 2))
         raise A.OutsideSubset("xp.sqrt of an array is not modelled by engine N")
+
+    def any(self, x):
+        if hasattr(x, "any") and not isinstance(x, NArr):
+            return x.any()
+        raise A.OutsideSubset("xp.any of an array")
+
+    def ones(self, shape, dtype=None, **kw):
+        shape = tuple(shape) if not isinstance(shape, int) else (shape,)
+        if len(shape) == 2 and shape[0] == 1:
+            return OnesRow(shape[1])
+        raise A.OutsideSubset("xp.ones of a general shape")
 
     def diag(self, x):
         if isinstance(x, EigVals):
